@@ -211,8 +211,13 @@ class SymBool:
         return o
 
     def __bool__(self):
+        eng = _CUR
+        if eng.symbolic and eng.pinned:
+            v = eng.pinned_value(self.c)
+            if v is not None:
+                return v
         f = sys._getframe(1)
-        return _CUR.branch(self.c, (f.f_code.co_filename.rsplit("/", 1)[-1], f.f_lineno))
+        return eng.branch(self.c, (f.f_code.co_filename.rsplit("/", 1)[-1], f.f_lineno))
 
     def __eq__(self, o):
         return SymBool(_simp(Iff(self, o))) if isinstance(o, (bool, SymBool)) else False
@@ -274,10 +279,17 @@ class SymInt:
         o.t = s
         return o
 
+    def _pv(self):
+        eng = _CUR
+        if eng.symbolic and eng.pinned:
+            return eng.pinned_value(self.t)
+        return None
+
     @staticmethod
     def _o(o):
         if isinstance(o, SymInt):
-            return o.t
+            v = o._pv()
+            return o.t if v is None else v
         if isinstance(o, bool):
             return int(o)
         if isinstance(o, int):
@@ -290,18 +302,34 @@ class SymInt:
         t = self._o(o)
         if t is None:
             return NotImplemented
+        v = self._pv()
+        if v is not None:
+            r = op(v, t)
+            return r if isinstance(r, bool) else wrapb(r)
         return wrapb(op(self.t, t))
 
     def __eq__(self, o):
         t = self._o(o)
         if t is None:
             return False
+        v = self._pv()
+        if v is not None:
+            r = v == t
+            return r if isinstance(r, bool) else wrapb(r)
+        if isinstance(t, int):
+            return wrapb(_atom(self.t, t, lambda: self.t == t))
         return wrapb(self.t == t)
 
     def __ne__(self, o):
         t = self._o(o)
         if t is None:
             return True
+        v = self._pv()
+        if v is not None:
+            r = v != t
+            return r if isinstance(r, bool) else wrapb(r)
+        if isinstance(t, int):
+            return wrapb(_atom(self.t, ("ne", t), lambda: self.t != t))
         return wrapb(self.t != t)
 
     def __lt__(self, o):
@@ -320,7 +348,8 @@ class SymInt:
         t = self._o(o)
         if t is None:
             return NotImplemented
-        return SymInt(op(self.t, t))
+        v = self._pv()
+        return SymInt(op(self.t if v is None else v, t))
 
     def __add__(self, o):
         return self._ar(o, lambda a, b: a + b)
@@ -370,6 +399,9 @@ class SymInt:
         return _CUR.branch(self.t != 0, (f.f_code.co_filename.rsplit("/", 1)[-1], f.f_lineno))
 
     def __index__(self):
+        v = self._pv()
+        if v is not None:
+            return v
         return _CUR.concretize(self.t)
 
     __int__ = __index__
@@ -927,6 +959,63 @@ def sx_join(sep, it):
 
 
 # --------------------------------------------------------------------------
+_VARS_OF = {}  # ast id -> (expr kept alive, frozenset of ids of the uninterpreted constants in it)
+
+
+def vars_of(e):
+    k = e.get_id()
+    r = _VARS_OF.get(k)
+    if r is not None:
+        return r[1]
+    if len(_VARS_OF) > 400000:
+        _VARS_OF.clear()
+    if z3.is_const(e):
+        vs = frozenset([k]) if e.decl().kind() == z3.Z3_OP_UNINTERPRETED else frozenset()
+    else:
+        vs = frozenset()
+        for ch in e.children():
+            vs = vs | vars_of(ch)
+    _VARS_OF[k] = (e, vs)
+    return vs
+
+
+def _is_var(e):
+    return z3.is_const(e) and e.decl().kind() == z3.Z3_OP_UNINTERPRETED
+
+
+def _num(e):
+    if z3.is_int_value(e):
+        return e.as_long()
+    if z3.is_true(e):
+        return True
+    if z3.is_false(e):
+        return False
+    return None
+
+
+def pin_of(cond, value):
+    """(variable id, value) forced by asserting `cond == value`; None if no single-variable pin is evident"""
+    try:
+        while z3.is_not(cond):
+            cond = cond.arg(0)
+            value = not value
+        if _is_var(cond):
+            return cond.get_id(), bool(value)  # Bool variable
+        if value and z3.is_eq(cond):
+            a, b = cond.arg(0), cond.arg(1)
+            if _is_var(a):
+                n = _num(b)
+                if n is not None:
+                    return a.get_id(), n
+            if _is_var(b):
+                n = _num(a)
+                if n is not None:
+                    return b.get_id(), n
+    except Exception:
+        pass
+    return None
+
+
 class Engine:
     """depth-first exploration by re-execution; one incremental solver mirrors the decision stack"""
 
@@ -951,6 +1040,37 @@ class Engine:
         self.concretizations = 0
         self.fork_sites = {}
         self.t_path = 0.0
+        self.pinned = {}  # variable id -> (forced value, index of the stack entry that forces it)
+        self.saved_queries = 0
+
+    # ---- pins: variables forced to a single value by the path condition (their conditions need no solver)
+    def _set_pin(self, e, cond, value, idx=None):
+        self._unpin(e)
+        pin = pin_of(cond, value) if cond is not None else None
+        if pin is not None and pin[0] not in self.pinned:
+            self.pinned[pin[0]] = (pin[1], len(self.stack) - 1 if idx is None else idx)
+            e["pin"] = pin[0]
+
+    def _unpin(self, e):
+        old = e.get("pin")
+        if old is not None:
+            self.pinned.pop(old, None)
+            e["pin"] = None
+
+    def _all_pinned(self, cond):
+        if not self.pinned:
+            return False
+        for v in vars_of(cond):
+            if v not in self.pinned:
+                return False
+        return True
+
+    def pinned_value(self, t):
+        """concrete value of variable term t if an *earlier* decision of the current path forces it, else None"""
+        r = self.pinned.get(t.get_id())
+        if r is not None and r[1] < self.pos:
+            return r[0]
+        return None
 
     # ---- solver plumbing
     def _check(self, *extra):
@@ -1002,6 +1122,8 @@ class Engine:
             if self.pos > self.levels:  # constraint not yet in the solver (fresh solver / shard prefix)
                 self._push_constraint(cond if e["value"] else z3.Not(cond))
                 self.model = None
+                if e["kind"] == "p":
+                    self._set_pin(e, cond, e["value"], self.pos - 1)
             return e["value"]
         if self.shard_depth is not None and len(self.stack) >= self.shard_depth:
             raise ShardCut()
@@ -1010,9 +1132,16 @@ class Engine:
             # model could not decide: ask the solver for the True side
             v = self._check(cond) == z3.sat
             self.model = None
-        self.stack.append({"kind": "b", "value": v, "cond": cond, "open": True, "where": where})
+        # every variable of the condition already forced to one value -> the other side is infeasible, no query needed
+        decided = self._all_pinned(cond)
+        if decided:
+            self.saved_queries += 1
+        e = {"kind": "b", "value": v, "cond": cond, "open": not decided, "where": where}
+        self.stack.append(e)
         self.pos += 1
         self._push_constraint(cond if v else z3.Not(cond))
+        if not decided:
+            self._set_pin(e, cond, v)
         return v
 
     def assume(self, cond):
@@ -1026,10 +1155,14 @@ class Engine:
             if self.pos > self.levels:
                 self._push_constraint(cond)
                 self.model = None
+                if e["kind"] == "p":
+                    self._set_pin(e, cond, True, self.pos - 1)
             return
-        self.stack.append({"kind": "a", "value": True, "open": False})
+        e = {"kind": "a", "value": True, "open": False}
+        self.stack.append(e)
         self.pos += 1
         self._push_constraint(cond)
+        self._set_pin(e, cond, True)
         if self.model is not None and self._eval_bool(cond) is True:
             return
         r = self._check()
@@ -1053,6 +1186,8 @@ class Engine:
             if self.pos > self.levels:
                 self._push_constraint(expr == e["value"])
                 self.model = None
+                if e["kind"] == "p":
+                    self._set_pin(e, expr == e["value"], True, self.pos - 1)
             return e["value"]
         if self.shard_depth is not None and len(self.stack) >= self.shard_depth:
             raise ShardCut()
@@ -1063,9 +1198,13 @@ class Engine:
             raise Unsupported("cannot concretize %s" % expr)
         v = v.as_long()
         self.concretizations += 1
-        self.stack.append({"kind": "c", "value": v, "expr": expr, "tried": [v], "open": True})
+        decided = self._all_pinned(expr)
+        e = {"kind": "c", "value": v, "expr": expr, "tried": [v], "open": not decided}
+        self.stack.append(e)
         self.pos += 1
         self._push_constraint(expr == v)
+        if not decided:
+            self._set_pin(e, expr == v, True)
         return v
 
     def choose(self, name, n):
@@ -1156,6 +1295,7 @@ class Engine:
                     self.levels += 1
                     e["value"] = alt
                     e["open"] = False
+                    self._set_pin(e, e["cond"], alt)
                     if e.get("where") is not None:
                         self.fork_sites[e["where"]] = self.fork_sites.get(e["where"], 0) + 1
                     return True
@@ -1173,13 +1313,15 @@ class Engine:
                     self.solver.push()
                     self.solver.add(e["expr"] == v)
                     self.levels += 1
-                    self.model = None
+                    self.model = m
                     e["value"] = v
                     e["tried"].append(v)
+                    self._set_pin(e, e["expr"] == v, True)
                     return True
                 self.solver.pop()
                 if r == z3.unknown:
                     self.unknowns += 1
+            self._unpin(e)
             self.stack.pop()
         return False
 
@@ -1212,6 +1354,7 @@ class Engine:
                     tried.append(v)
                     out.append(vals[:i] + [v])
         self.stack = []
+        self.pinned = {}
         while self.levels > 0:
             self.solver.pop()
             self.levels -= 1
@@ -1229,6 +1372,7 @@ class Engine:
     def load_prefix(self, values):
         """start below a frozen prefix of decisions (shard work item); solver constraints are rebuilt on replay"""
         self.stack = [{"kind": "p", "value": v, "open": False, "frozen": True} for v in values]
+        self.pinned = {}
         while self.levels > 0:
             self.solver.pop()
             self.levels -= 1
